@@ -51,6 +51,7 @@ ASSUMPTIONS = [
     "a truncate-mode builder discards the active file at start-up by configuration: records in the active file "
     "at a truncating (re)start are not counted as lost",
 ]
+RELEASE_TOO = True          # the cases also run through the release-profile harness (see ./check)
 EXHAUSTIVE = {"quick": False, "thorough": False}
 TRUSTED = ["libc dup2-based stdout silencing in the harness (the crate println!s on a failed final step)",
            "the guarded hook log4rs::verif_hooks::set_rotate_step (called before each shift and before the final "
